@@ -899,6 +899,30 @@ func (te *TemplateEngine) cloneDocument(source *Document) *Document {
 	// 复制图片ID计数器
 	doc.nextImageID = source.nextImageID
 
+	// 复制脚注/编号管理器，使渲染结果中继续添加脚注或列表时不会丢失模板已有的定义
+	if m := source.footnoteManager; m != nil {
+		c := &FootnoteManager{nextFootnoteID: m.nextFootnoteID, nextEndnoteID: m.nextEndnoteID,
+			footnotes: make(map[string]*Footnote, len(m.footnotes)), endnotes: make(map[string]*Endnote, len(m.endnotes))}
+		for k, v := range m.footnotes {
+			c.footnotes[k] = v
+		}
+		for k, v := range m.endnotes {
+			c.endnotes[k] = v
+		}
+		doc.footnoteManager = c
+	}
+	if m := source.numberingManager; m != nil {
+		c := &NumberingManager{nextAbstractNumID: m.nextAbstractNumID, nextNumID: m.nextNumID,
+			abstractNums: make(map[string]*AbstractNum, len(m.abstractNums)), numInstances: make(map[string]*NumInstance, len(m.numInstances))}
+		for k, v := range m.abstractNums {
+			c.abstractNums[k] = v
+		}
+		for k, v := range m.numInstances {
+			c.numInstances[k] = v
+		}
+		doc.numberingManager = c
+	}
+
 	return doc
 }
 
